@@ -1,6 +1,6 @@
 """C01 — decoding untrusted bytes is total (claimed in part): R-LIMIT, R-RAWINT, R-EOF, R-BLOCK."""
 from ..engine import Ctx, LIB_CRATES
-from . import rawint, limit, block, taintalloc, fieldrange
+from . import rawint, limit, block, taintalloc, fieldrange, signidx
 
 
 def main(pid, tier, repo=None):
@@ -10,6 +10,7 @@ def main(pid, tier, repo=None):
         ctx.use_config(cfg)
         rawint.run(ctx, LIB_CRATES)
         fieldrange.run(ctx, LIB_CRATES)
+        signidx.run(ctx, LIB_CRATES)
         limit.run(ctx, LIB_CRATES)
         taintalloc.run(ctx, LIB_CRATES)
         block.run_block(ctx, LIB_CRATES)
